@@ -19,6 +19,17 @@
 //!               AppendEntries on top of the snapshot; byte cuts inside the install's records,
 //!               restarts on them, crash chains continuing from a half-written install.
 //!               (random `install_snapshot` events also occur in every chain script.)
+//!   install.cut directed, run first: a follower acknowledges entries, then installs a snapshot reaching
+//!               beyond / below / exactly to what it acknowledged, conflicting with a local suffix, or a
+//!               second snapshot; the WAL is cut at EVERY byte the install wrote.
+//!
+//! Two oracles on the restarted REAL node at every cut, neither gated on the model:
+//!   record-derived  the obligations of the last completed handler call, released by the WAL records of the
+//!                   in-flight call that survive the cut (the model's `microG`);
+//!   order-derived   the entries acknowledged before the in-flight call, released only by what the ORDER
+//!                   being carried out says (`order_may_drop`: a snapshot replaces what it contradicts and
+//!                   what lies beyond it, an AppendEntries what follows its first term conflict) — a record
+//!                   the code has no business writing excuses nothing.
 use std::collections::{BTreeSet, HashSet};
 use std::path::{Path, PathBuf};
 use std::sync::Arc;
@@ -789,6 +800,8 @@ struct Ctx<'a> {
     thorough: bool,
     /// how many more failing handler calls may go through `persist_term_and_vote`'s retry sleeps
     slow_budget: u64,
+    /// cut at EVERY byte a snapshot install wrote (also in the quick tier)
+    dense_install: bool,
 }
 
 /// One recorded handler call.
@@ -799,7 +812,46 @@ struct Step {
     bytes_after: usize,
     ghost_after: Ghost,
     slot: usize,
+    /// what the node had told the world before this handler call started
+    ghost_before: Ghost,
+    /// its in-memory log at that moment
+    log_before: Vec<Ent>,
 }
+
+/// May the ORDER carried by `ev` (a leader's AppendEntries or snapshot) remove the acknowledged entry
+/// `e` from the log of a node that held `log_before`? Computed from the message and the log the node
+/// held when it arrived — never from the WAL records the implementation chose to write, so a record the
+/// code has no business writing (a `LogTruncate` in front of a snapshot's entries, say) excuses nothing.
+///   snapshot 1..n : an entry beyond n, or one whose index carries another (term, payload) in the snapshot
+///   AppendEntries : an entry at or beyond the first sent index at which the node holds another term
+///   anything else : nothing
+fn order_may_drop(ev: &Ev, log_before: &[Ent], e: &Ent) -> bool {
+    match ev {
+        Ev::Snap { ents, .. } => {
+            if ents.is_empty() {
+                return false; // refused: "snapshot contains no entries"
+            }
+            match ents.get((e.0 as usize).wrapping_sub(1)) {
+                Some((t, c)) if e.0 >= 1 => (*t, *c) != (e.1, e.2),
+                _ => true,
+            }
+        }
+        Ev::Ae { pi, ents, .. } => {
+            let first_conflict = ents.iter().enumerate().find_map(|(k, (t, _))| {
+                let idx = pi + 1 + k as u64;
+                match at(log_before, idx) {
+                    Some(old) if old.1 != *t => Some(idx),
+                    _ => None,
+                }
+            });
+            first_conflict.map_or(false, |f| e.0 >= f)
+        }
+        _ => false,
+    }
+}
+
+/// Reported by the order-derived oracle (and, for histories without an install, by the record-derived one).
+const LOST_ENTRY_CLASS: &str = "tensor_chain.raft_wal.recover/lost_entry";
 
 /// Obligations in force when the file is cut so that `k` whole records survive.
 fn obligations_at(steps: &[Step], base_ghost: &Ghost, base_slot: usize, base_frames: usize, k: usize, file: &[u8]) -> (Ghost, usize, Vec<RaftWalEntry>) {
@@ -962,6 +1014,7 @@ fn run_case(cx: &mut Ctx, r: &mut Rng, case_no: u64, max_crashes: usize, script:
             let term_before = lv.node.current_term();
             let role_before = lv.node.state();
             let log_before = node_log(&lv.node);
+            let ghost_before = ghost.clone();
             if failing {
                 had_fail = true;
                 cx.rep.hit(if is_slow_fail(&ev, &lv) { "fail.ev.term_record_path" } else { "fail.ev.log_or_none_path" });
@@ -1134,7 +1187,7 @@ fn run_case(cx: &mut Ctx, r: &mut Rng, case_no: u64, max_crashes: usize, script:
             }
             key.push_str(&line);
             key.push(';');
-            steps.push(Step { ev, frames_after: frames(&after).len(), bytes_before: before.len(), bytes_after: after.len(), ghost_after: ghost.clone(), slot });
+            steps.push(Step { ev, frames_after: frames(&after).len(), bytes_before: before.len(), bytes_after: after.len(), ghost_after: ghost.clone(), slot, ghost_before, log_before });
         }
 
         // ------------------------------------------------ cuts of this phase's file
@@ -1162,6 +1215,19 @@ fn run_case(cx: &mut Ctx, r: &mut Rng, case_no: u64, max_crashes: usize, script:
                 }
             }
             cuts.insert(file.len());
+        }
+        // every byte a snapshot install wrote; the bytes that are not among the cuts chosen above are judged
+        // on the restarted real node alone (both oracles; no model question: the framing around each record
+        // boundary is compared with the model at the cuts above)
+        let mut real_only: BTreeSet<usize> = BTreeSet::new();
+        if cx.dense_install {
+            for st in steps.iter().filter(|st| matches!(st.ev, Ev::Snap { .. })) {
+                for n in st.bytes_before.max(base_len)..=st.bytes_after.min(file.len()) {
+                    if cuts.insert(n) {
+                        real_only.insert(n);
+                    }
+                }
+            }
         }
         let cuts: Vec<usize> = cuts.into_iter().collect();
         // cuts that fall inside the records of a snapshot install (first record begun, last not complete)
@@ -1195,41 +1261,93 @@ fn run_case(cx: &mut Ctx, r: &mut Rng, case_no: u64, max_crashes: usize, script:
             }
             if mid_install.contains(&n) {
                 cx.rep.hit("cut.mid_snapshot_install");
+                if cx.dense_install {
+                    cx.rep.hit("cut.mid_snapshot_install.every_byte");
+                }
                 if inflight.iter().any(|x| matches!(x, RaftWalEntry::LogEntryFull { .. })) {
                     cx.rep.hit("cut.mid_snapshot_install.some_entries_durable");
                 }
             }
+            let light = real_only.contains(&n);
             // (a) WAL level: open + from_wal vs model
             let p1 = dir.path().join("cut_a.wal");
-            std::fs::write(&p1, cutb).unwrap();
-            let imp = real_recover(&p1);
-            let len_after_open = std::fs::metadata(&p1).map(|m| m.len()).unwrap_or(0);
-            let mo = cx.m.ask(&format!("recover {}", hex(cutb)));
-            let mv = cx.m.ask(&format!("valid_len {}", hex(cutb)));
-            let hist = history.clone();
-            cx.rep.compare("cut.recover", || json!({"history": hist, "cut": n, "file_len": file.len()}), &imp, &mo);
-            let hist = history.clone();
-            let repaired = len_after_open.to_string() == mv;
-            cx.rep.compare("cut.open_repair", || json!({"history": hist, "cut": n, "file_len": file.len(), "what": "file length after RaftWal::open vs complete-frame prefix"}), &len_after_open.to_string(), &mv);
+            let repaired = if light {
+                cx.rep.hit("cut.real_node_only");
+                true
+            } else {
+                std::fs::write(&p1, cutb).unwrap();
+                let imp = real_recover(&p1);
+                let len_after_open = std::fs::metadata(&p1).map(|m| m.len()).unwrap_or(0);
+                let mo = cx.m.ask(&format!("recover {}", hex(cutb)));
+                let mv = cx.m.ask(&format!("valid_len {}", hex(cutb)));
+                let hist = history.clone();
+                cx.rep.compare("cut.recover", || json!({"history": hist, "cut": n, "file_len": file.len()}), &imp, &mo);
+                let hist = history.clone();
+                cx.rep.compare("cut.open_repair", || json!({"history": hist, "cut": n, "file_len": file.len(), "what": "file length after RaftWal::open vs complete-frame prefix"}), &len_after_open.to_string(), &mv);
+                len_after_open.to_string() == mv
+            };
             // (b) node level: restart, observe, oracle
             let p2 = dir.path().join("cut_b.wal");
             std::fs::write(&p2, cutb).unwrap();
             let p3 = dir.path().join("cut_c.wal");
-            std::fs::write(&p3, cutb).unwrap();
+            // the throw-away copy for the vote probes is not needed when no vote is owed and nothing is
+            // compared with the model
+            let need_probe = !light || !obl.votes.is_empty();
+            if need_probe {
+                std::fs::write(&p3, cutb).unwrap();
+            }
             let rnode = mk_node(&p2);
-            let pnode = mk_node(&p3);
+            let pnode = if need_probe { mk_node(&p3) } else { mk_node(&dir.path().join("cut_unused.wal")) };
             // model restart on the same bytes (state restored afterwards)
-            let keep: usize = cx.m.ask("save").parse().unwrap_or(0);
-            let mo_node = cx.m.ask(&format!("restart {SELF_ID} {}", hex(cutb)));
-            cx.m.ask(&format!("load {keep}"));
+            let mo_node = if light {
+                String::new()
+            } else {
+                let keep: usize = cx.m.ask("save").parse().unwrap_or(0);
+                let mo_node = cx.m.ask(&format!("restart {SELF_ID} {}", hex(cutb)));
+                cx.m.ask(&format!("load {keep}"));
+                mo_node
+            };
             match (rnode, pnode) {
                 (Ok(rn), Ok(pn)) => {
                     let term = rn.current_term();
                     let log = node_log(&rn);
-                    let voted = probe_voted(&pn);
+                    let voted = if need_probe { probe_voted(&pn) } else { "not-probed".to_string() };
                     let imp_node = format!("{}/{}/{}/{} {} {}", term, voted, role_tok(&rn), log_tok(&log), dump_fields(&rn).1, base_tok(&log));
-                    let hist = history.clone();
-                    cx.rep.compare("cut.restart", || json!({"history": hist, "cut": n}), &imp_node, &mo_node);
+                    if !light {
+                        let hist = history.clone();
+                        cx.rep.compare("cut.restart", || json!({"history": hist, "cut": n}), &imp_node, &mo_node);
+                    }
+                    // Order-derived oracle (independent of the model AND of the records the implementation
+                    // wrote): the handler call this cut falls into was carrying out some order; every entry
+                    // acknowledged BEFORE that call which the order itself does not replace or drop must be
+                    // in the restarted node's log, wherever inside the call's WAL writes the crash hit.
+                    if let Some(st) = steps.iter().find(|st| st.bytes_before < n && n <= st.bytes_after) {
+                        cx.rep.hit("oracle.order_derived.evaluated");
+                        let inside_install = matches!(st.ev, Ev::Snap { .. }) && n < st.bytes_after;
+                        if inside_install {
+                            cx.rep.hit("oracle.order_derived.inside_install");
+                        }
+                        let owed: Vec<Ent> = st.ghost_before.acked.iter().copied().filter(|e| !order_may_drop(&st.ev, &st.log_before, e)).collect();
+                        if inside_install && !owed.is_empty() {
+                            cx.rep.hit("oracle.order_derived.inside_install_with_acked_entries");
+                        }
+                        let lost: Vec<Ent> = owed.iter().copied().filter(|e| !log.contains(e)).collect();
+                        if !lost.is_empty() {
+                            cx.rep.violation(
+                                LOST_ENTRY_CLASS,
+                                &format!(
+                                    "entries {} acknowledged before `{}` and not replaced or dropped by that order are missing after a restart from a crash {} bytes into the {} bytes the call wrote",
+                                    log_tok(&lost), st.ev.line(), n - st.bytes_before, st.bytes_after - st.bytes_before
+                                ),
+                                json!({"case": case_no, "phase": phase, "history": history, "in_flight": st.ev.line(), "cut": n,
+                                       "call_wrote_bytes": [st.bytes_before, st.bytes_after], "file_len": file.len(),
+                                       "acknowledged_before_the_call": log_tok(&st.ghost_before.acked.iter().copied().collect::<Vec<_>>()),
+                                       "owed_whatever_the_call_writes": log_tok(&owed), "lost": log_tok(&lost),
+                                       "records_on_disk_from_the_call": inflight.iter().map(rec_tok).collect::<Vec<_>>(),
+                                       "restarted": imp_node}),
+                            );
+                        }
+                    }
                     for (kind, detail) in obl.check(term, &voted, &log) {
                         let input = json!({"case": case_no, "phase": phase, "history": history, "cut": n, "file_len": file.len(),
                                    "obligations": obl.tok(), "restarted": imp_node});
@@ -1244,8 +1362,10 @@ fn run_case(cx: &mut Ctx, r: &mut Rng, case_no: u64, max_crashes: usize, script:
                 (Err(e), _) | (_, Err(e)) => {
                     // a node that cannot restart has forgotten everything it promised
                     let nonempty = obl.acted > 0 || !obl.votes.is_empty() || !obl.acked.is_empty();
-                    let hist = history.clone();
-                    cx.rep.compare("cut.restart", || json!({"history": hist, "cut": n}), &format!("err {}", err_class(&e.to_string())), &mo_node);
+                    if !light {
+                        let hist = history.clone();
+                        cx.rep.compare("cut.restart", || json!({"history": hist, "cut": n}), &format!("err {}", err_class(&e.to_string())), &mo_node);
+                    }
                     if nonempty {
                         cx.rep.violation(
                             &violation_class("restart_fails", all_repaired && repaired, after_install),
@@ -1578,6 +1698,45 @@ fn fail_scripts() -> Vec<(Vec<Ev>, Vec<bool>)> {
     raw.into_iter().map(|v| (v.iter().map(|x| x.0.clone()).collect(), v.iter().map(|x| x.1).collect())).collect()
 }
 
+// ---------------------------------------------------------------- crash inside a snapshot install
+
+/// Directed histories (run first): a follower acknowledges entries to its leader, then installs a
+/// snapshot; the WAL is cut at EVERY byte the install wrote and a real node restarted on every cut
+/// (`Ctx::dense_install`). The shortest histories in which the ORDER of the install's WAL writes is the
+/// only thing between a crash and a forgotten acknowledged entry: whatever the install writes first, the
+/// entries acknowledged before it that the snapshot repeats must be recoverable from every prefix.
+fn install_cut_scripts() -> Vec<(Vec<Ev>, &'static str)> {
+    let same = |n: u64| -> Vec<(u64, u64)> { (1..=n).map(|i| (1, 100 + i)).collect() };
+    let ae = |t: u64, l: u64, pi: u64, pt: u64, ents: Vec<(u64, u64)>| Ev::Ae { t, l, pi, pt, ents };
+    vec![
+        // acknowledged 1..=5, snapshot 1..=8 from the same leader (the snapshot reaches beyond the log)
+        (vec![ae(1, 1, 0, 0, same(5)), Ev::Snap { li: 8, lt: 1, ents: same(8), streaming: false }, ae(1, 1, 8, 1, vec![(1, 109)])], "snapshot_beyond_acked"),
+        // acknowledged 1..=5, snapshot 1..=3: an agreeing local suffix 4, 5 beyond the snapshot index
+        (vec![ae(1, 1, 0, 0, same(5)), Ev::Snap { li: 3, lt: 1, ents: same(3), streaming: true }, ae(1, 1, 3, 1, vec![(1, 104)])], "snapshot_below_acked"),
+        // acknowledged 1..=5 in two calls, snapshot 1..=5
+        (vec![ae(1, 1, 0, 0, same(2)), ae(1, 1, 2, 1, same(5)[2..].to_vec()), Ev::Snap { li: 5, lt: 1, ents: same(5), streaming: false }], "snapshot_equals_acked"),
+        // acknowledged 1..=6 under the leader of term 1; the snapshot 1..=4 of the term-2 leader agrees on
+        // 1, 2, replaces 3, 4 and leaves a conflicting local suffix 5, 6 beyond its index
+        (
+            vec![
+                ae(1, 2, 0, 0, vec![(1, 101), (1, 102), (1, 503), (1, 504), (1, 505), (1, 506)]),
+                Ev::Snap { li: 4, lt: 2, ents: vec![(1, 101), (1, 102), (2, 103), (2, 104)], streaming: true },
+                ae(2, 1, 4, 2, vec![(2, 105)]),
+            ],
+            "snapshot_conflicts_with_suffix_beyond",
+        ),
+        // a second, longer snapshot over an installed one plus entries acknowledged on top of it
+        (
+            vec![
+                Ev::Snap { li: 2, lt: 1, ents: same(2), streaming: false },
+                ae(1, 1, 2, 1, same(4)[2..].to_vec()),
+                Ev::Snap { li: 6, lt: 1, ents: same(6), streaming: false },
+            ],
+            "second_snapshot_over_acked_on_top",
+        ),
+    ]
+}
+
 // ---------------------------------------------------------------- size limit / rotation
 
 /// Fixed by c45da25c (`RaftNode::with_wal` opens its WAL with auto_rotate = false). A node whose WAL is
@@ -1873,6 +2032,11 @@ fn main() {
         "ev.start_pre_vote", "ev.pre_vote", "ev.timeout_now", "branch.election_by_prevote_quorum",
         "branch.election_by_timeout_now", "branch.leader_by_vote_quorum", "fail.prevote_response", "fail.timeout_now",
         "ev.compact", "branch.compaction_drained",
+        "install_cut.script.snapshot_beyond_acked", "install_cut.script.snapshot_below_acked",
+        "install_cut.script.snapshot_equals_acked", "install_cut.script.snapshot_conflicts_with_suffix_beyond",
+        "install_cut.script.second_snapshot_over_acked_on_top", "cut.mid_snapshot_install.every_byte",
+        "cut.real_node_only", "oracle.order_derived.evaluated", "oracle.order_derived.inside_install",
+        "oracle.order_derived.inside_install_with_acked_entries",
     ]
     .iter()
     .map(|s| s.to_string())
@@ -1883,12 +2047,22 @@ fn main() {
     let root = Rng::new(args.seed);
     let thorough = args.thorough;
     {
-        let mut cx = Ctx { m: &mut m, rep: &mut rep, seen: HashSet::new(), thorough, slow_budget: if thorough { 40 } else { 2 } };
+        let mut cx = Ctx { m: &mut m, rep: &mut rep, seen: HashSet::new(), thorough, slow_budget: if thorough { 40 } else { 2 }, dense_install: false };
         let t_all = std::time::Instant::now();
         // debugging aid: C10_ONLY_COMPACT=1 runs the compact stream alone
         let only_compact = std::env::var("C10_ONLY_COMPACT").is_ok();
         let cnt = |t: u64, q: u64| -> u64 { if only_compact { 0 } else if thorough { t } else { q } };
-        // directed regression cases of the two fixed findings of this round run first
+        // directed: a crash at every byte of a snapshot install on a follower holding acknowledged entries
+        let mut ri = root.fork("install.cut");
+        cx.thorough = false;
+        cx.dense_install = true;
+        for (i, (script, variant)) in install_cut_scripts().into_iter().enumerate().filter(|_| !only_compact) {
+            cx.rep.hit(&format!("install_cut.script.{variant}"));
+            run_case(&mut cx, &mut ri, 60_000 + i as u64, if thorough { 2 } else { 1 }, Some(script), "install.cut", &FailCfg::none());
+        }
+        cx.dense_install = false;
+        cx.thorough = thorough;
+        // directed regression cases of the two fixed findings of this round run next
         if std::env::var("C10_TIMES").is_ok() { eprintln!("before rot.node {:?}", t_all.elapsed()); }
         let mut r = root.fork("rot.node");
         for i in 0..cnt(6, 2) {
@@ -1919,8 +2093,11 @@ fn main() {
             let (script, variant) = snapshot_script(&mut r);
             cx.rep.hit(&format!("snapshot.script.{variant}"));
             cx.thorough = thorough && i < 30;
+            // every byte of the install's records for the first scripts, frame boundaries +-{1,3,7} after
+            cx.dense_install = i < if thorough { 60 } else { 2 };
             run_case(&mut cx, &mut r, 10_000 + i, 2, Some(script), "snapshot", &FailCfg::none());
         }
+        cx.dense_install = false;
         if std::env::var("C10_TIMES").is_ok() { eprintln!("before compact {:?}", t_all.elapsed()); }
         // log compaction: small snapshot_trailing_logs, truncate_log events among the others (and some
         // failing appends); directed script first
